@@ -2,6 +2,7 @@ package main
 
 import (
 	"go/token"
+	"go/types"
 	"strings"
 
 	"golang.org/x/tools/go/ssa"
@@ -107,11 +108,11 @@ func c10HardCert(c *Ctx, m *shimModel) {
 		c.Check(known && isNil, "R1.hardcert", "AddHardCert|listing succeeded", w.Pos(mu.Pos()), "must-fact agent.List() err == nil", "insert without a successful listing of the underlying agent")
 		// bytes.Equal(agentKey.Marshal(), cert.Key.Marshal()) == true with agentKey ranging over this listing
 		okEq := f.Any(b, func(l Lit) bool {
-			cv, ok := l.V.(*ssa.Call)
-			if !ok || !l.Pol || calleeName(cv) != "bytes.Equal" {
+			xa, ya, ok := bytesEqualLit(l)
+			if !ok {
 				return false
 			}
-			x, y := w.Expr(cv.Call.Args[0]), w.Expr(cv.Call.Args[1])
+			x, y := w.Expr(xa), w.Expr(ya)
 			listed := "Agent).List>(p0." + m.fAgent + ")#0["
 			certKey := w.Expr(certV) + ".Key)"
 			return (strings.Contains(x, listed) && strings.Contains(x, "Marshal") && strings.Contains(y, certKey) && strings.Contains(y, "Marshal")) ||
@@ -381,14 +382,17 @@ func framingRules(c *Ctx, rule string, pkgs []string) {
 		}
 		c.Floor(rule, nAlloc, 1, "frame buffer allocation in "+pkg+".read")
 		nRF := 0
-		for _, call := range callsTo(rd, "io.ReadFull") {
+		for _, call := range callsIn(rd) {
+			if !fullRead(w, call) {
+				continue
+			}
 			nRF++
 			c.Check(w.Expr(call.Common().Args[0]) == "p0", rule, pkg+".read|reads exactly from the connection", w.Pos(call.Pos()), "io.ReadFull(c, ...)", "the frame is read through something other than the connection itself (a per-call buffered reader loses the bytes it read ahead): "+w.Short(call.Common().Args[0]))
 		}
 		c.Check(nRF == 2, rule, pkg+".read|prefix and body read with io.ReadFull", w.FnPos(rd), "two io.ReadFull calls", "expected two io.ReadFull calls (length prefix, body), found "+itoa(nRF))
 		for _, call := range callsIn(rd) {
 			n := calleeName(call)
-			if n == "io.ReadFull" || n == "fmt.Errorf" || n == "errors.New" || strings.HasPrefix(n, "builtin:") || strings.HasPrefix(n, "(encoding/binary.") {
+			if fullRead(w, call) || n == "fmt.Errorf" || n == "errors.New" || strings.HasPrefix(n, "builtin:") || strings.HasPrefix(n, "(encoding/binary.") {
 				continue
 			}
 			for _, a := range call.Common().Args {
@@ -801,4 +805,56 @@ func c10ContainsKey(w *World, fn *ssa.Function, v ssa.Value, listing, certV ssa.
 	}
 	a, b := eq.Call.Args[0], eq.Call.Args[1]
 	return (isMarshalOf(a, isElem) && isMarshalOf(b, isCertKey)) || (isMarshalOf(b, isElem) && isMarshalOf(a, isCertKey))
+}
+
+// fullRead: the call reads exactly len(buf) bytes or fails - io.ReadFull(r, buf), or its definition
+// io.ReadAtLeast(r, buf, len(buf)).
+func fullRead(w *World, call ssa.CallInstruction) bool {
+	switch calleeName(call) {
+	case "io.ReadFull":
+		return true
+	case "io.ReadAtLeast":
+		a := call.Common().Args
+		if len(a) != 3 {
+			return false
+		}
+		if la := lenArg(a[2]); la != nil && w.Expr(la) == w.Expr(a[1]) {
+			return true
+		}
+		// len of an array is a constant: the buffer is that whole array
+		if k, isK := intConst(a[2]); isK {
+			if sl, ok := strip(a[1]).(*ssa.Slice); ok && sl.Low == nil && sl.High == nil {
+				if pt, ok := sl.X.Type().Underlying().(*types.Pointer); ok {
+					if at, ok := pt.Elem().Underlying().(*types.Array); ok && at.Len() == k {
+						return true
+					}
+				}
+			}
+		}
+	}
+	return false
+}
+
+// bytesEqualLit: the literal states that two byte strings are equal - bytes.Equal(x, y) holds, or
+// bytes.Compare(x, y) == 0 does.
+func bytesEqualLit(l Lit) (x, y ssa.Value, ok bool) {
+	switch v := l.V.(type) {
+	case *ssa.Call:
+		if l.Pol && calleeName(v) == "bytes.Equal" && len(v.Call.Args) == 2 {
+			return v.Call.Args[0], v.Call.Args[1], true
+		}
+	case *ssa.BinOp:
+		if (v.Op == token.EQL && l.Pol) || (v.Op == token.NEQ && !l.Pol) {
+			a, b := v.X, v.Y
+			if _, isK := intConst(a); isK {
+				a, b = b, a
+			}
+			if k, isK := intConst(b); isK && k == 0 {
+				if cv, isCall := strip(a).(*ssa.Call); isCall && calleeName(cv) == "bytes.Compare" && len(cv.Call.Args) == 2 {
+					return cv.Call.Args[0], cv.Call.Args[1], true
+				}
+			}
+		}
+	}
+	return nil, nil, false
 }
